@@ -513,6 +513,75 @@ def compare(chk, label, exprs, wants, describe, shard=300):
     return agree
 
 
+def part_output_decision(chk):
+    """Model/ArchiveOut.v handle_output_path vs the real conductor.cli.archive.handle_output_path on real file-system
+    configurations of the -o argument (absent; a directory; a file; links to either; a dangling link; absent below a
+    directory / a file / nothing; relative spellings).  The probe (exists / is_dir / parent ...) is taken independently
+    with os.path; the real function's answer is classified by what it returned or raised."""
+    import pathlib
+    import types
+    import conductor.cli.archive as arch
+    from conductor.errors import OutputFileExists, OutputPathDoesNotExist
+
+    base = new_dir("outdec")
+    os.makedirs(os.path.join(base, "cond-out"))
+    os.makedirs(os.path.join(base, "adir", "sub"))
+    open(os.path.join(base, "afile"), "w").write("x")
+    open(os.path.join(base, "adir", "old.tar.gz"), "w").write("x")
+    os.symlink("adir", os.path.join(base, "link-to-dir"))
+    os.symlink("afile", os.path.join(base, "link-to-file"))
+    os.symlink("nowhere", os.path.join(base, "dangling"))
+    ctx = types.SimpleNamespace(output_path=pathlib.Path(base, "cond-out"))
+    raws = [None, "adir", "adir/", "adir/sub", "afile", "adir/old.tar.gz", "link-to-dir", "link-to-file", "dangling", "new.tar.gz", "adir/new.tar.gz", "adir/sub/../new.tar.gz",
+            "afile/new.tar.gz", "missing/new.tar.gz", "missing/deeper/new.tar.gz", "link-to-dir/new.tar.gz", "dangling/new.tar.gz", ".", "..", "./new.tar.gz", "adir/res:v1.tar.gz",
+            os.path.join(base, "abs-new.tar.gz"), os.path.join(base, "afile"), os.path.join(base, "adir"), "cond-out", "cond-out/new.tar.gz"]
+    exprs, wants, descr = [], [], []
+    cwd = os.getcwd()
+    os.chdir(base)
+    try:
+        for raw in raws:
+            if raw is None:
+                probe = (False, False, False, False, False)
+            else:
+                parent = os.path.dirname(raw.rstrip("/")) if raw not in (".", "..") else ""       # pathlib drops a trailing slash; Path('.').parent is '.'
+                parent = parent or "."
+                if raw == "..":
+                    parent = ".."
+                probe = (True, os.path.exists(raw), os.path.isdir(raw), os.path.exists(parent), os.path.isdir(parent))
+            try:
+                res = arch.handle_output_path(ctx, raw)
+                if raw is None:
+                    code = 0 if res.parent == ctx.output_path else 99
+                elif res == pathlib.Path(raw):
+                    code = 2
+                elif res.parent == pathlib.Path(raw):
+                    code = 1
+                else:
+                    code = 99
+            except OutputFileExists:
+                code = 3
+            except OutputPathDoesNotExist:
+                code = 4
+            chk.coverage["evaluations"] += 1
+            chk.count("output-decision", {0: "generated in cond-out", 1: "generated in the given directory", 2: "the given path", 3: "refused: exists", 4: "refused: no such directory"}.get(code, "other"))
+            exprs.append("decision_code (handle_output_path {| o_given := %s; o_exists := %s; o_is_dir := %s; o_parent_exists := %s; o_parent_is_dir := %s |})" % tuple(cbool(b) for b in probe))
+            wants.append(code)
+            descr.append((raw, probe, code))
+    finally:
+        os.chdir(cwd)
+    if chk.coq.model_ok:
+        ok, bad, rawout = run_packed_cases("From Conductor Require Import Lib.Cmp Model.ArchiveOut.", "", [clist(exprs)], [wants])[0]
+        if not ok:
+            chk.violation("correspondence", "output decision: model evaluation failed: %s" % rawout[-300:], {"theorem_or_tie": "correspondence Model/ArchiveOut.v", "coq_output": rawout}, found_input=False)
+        elif bad:
+            for i in bad[:3]:
+                chk.violation("correspondence", "Model/ArchiveOut.v handle_output_path and cli/archive.py disagree on -o %r (probe %r): the implementation's answer is %r" % descr[i],
+                              {"theorem_or_tie": "correspondence Model/ArchiveOut.v vs cli/archive.py handle_output_path", "case": repr(descr[i])}, found_input=False)
+        else:
+            chk.coverage["traces_validated_against_impl"] += len(exprs)
+        chk.coverage["disagreements_checked"] += len(exprs)
+
+
 def refused_archives_change_nothing(chk):
     """"Archiving never changes the source project's recorded versions or outputs" -- also when `cond archive` REFUSES
     to write: `-o` names a file that exists (an archive made a moment ago; a file inside a recorded output directory),
@@ -585,7 +654,7 @@ def refused_archives_change_nothing(chk):
 
 def run(tier, seed, replay=None):
     chk = Check("C11", tier, seed)
-    chk.build_proofs(["Model/Archive.vo", "Lib/Cmp.vo", "Refuted/TraverseOld.vo"])
+    chk.build_proofs(["Model/Archive.vo", "Model/ArchiveOut.vo", "Lib/Cmp.vo", "Refuted/TraverseOld.vo"])
     setup_impl_path()
     new_dir("warm")
 
@@ -618,6 +687,7 @@ def run(tier, seed, replay=None):
     graphs, ex_b, w_b, nt_b = part_traverse(chk, tier)
     _jobs, ex_c, w_c, meta, nt_c = part_e2e(chk, tier)
     refused_archives_change_nothing(chk)
+    part_output_decision(chk)
     chk.coverage["distinct_nontrivial"] = nt_a + nt_b + nt_c
     chk.coverage["exhaustive"] = False
     chk.coverage["rule"] = (
